@@ -122,6 +122,18 @@ pub fn pool() -> Vec<(String, Ex, bool)> {
     v.push((call("stream", vec![Ex::List(vec![int(1), int(2)])]), false));
     v.push((bin(bin(int(1), "to", int(4)), "lazy_map", Ex::Lambda(vec![lv("x")], Box::new(bin(var("x"), "*", int(2))))), false));
     v.push((call("permutations", vec![Ex::List(vec![int(1), int(2), int(3)])]), false));
+    // values that run code which prints when they are used: a closure, a lazy stream, and a
+    // closure returning such a stream (re-entrancy on the output seam inside builtins)
+    let printing = |p: &str| Ex::Lambda(vec![lv(p)], Box::new(Ex::Seq(vec![call("print", vec![var(p)]), var(p)], false)));
+    v.push((printing("x"), false));
+    v.push((bin(bin(int(1), "to", int(3)), "lazy_map", printing("y")), false));
+    v.push((
+        Ex::Lambda(vec![lv("x")], Box::new(bin(bin(int(1), "to", int(2)), "lazy_map", printing("y")))),
+        false,
+    ));
+    // zero-step ranges: empty when start >= end, otherwise endless
+    v.push((call("til", vec![int(3), int(1), int(0)]), false));
+    v.push((call("til", vec![int(1), int(3), int(0)]), false));
     v.push((call("iota", vec![int(0)]), false));
     v.push((call("repeat", vec![int(1)]), false));
     v.push((call("cycle", vec![Ex::List(vec![int(1), int(2)])]), false));
@@ -153,9 +165,9 @@ fn liveness_probe() -> Ex {
 
 pub const CHUNK: usize = 120;
 
-/// pool entries that are infinite streams (the last three)
+/// pool entries that are infinite streams (the last four)
 pub fn is_infinite_entry(pool_len: usize, i: usize) -> bool {
-    i + 3 >= pool_len
+    i + 4 >= pool_len
 }
 
 /// builtins that must consume their stream argument: with an infinite stream they do not terminate
@@ -195,6 +207,10 @@ pub fn generate_mode(seed: u64, index: u64, exhaustive: bool, inf: InfMode) -> F
     let cfg = RunCfg {
         hash_seed: rng.next(),
         fuel: 300_000,
+        // the reading builtins see three lines (one of them not ASCII) again and again
+        input: "ab\n12\n\u{3bb}x\n".as_bytes().to_vec(),
+        in_rewind: true,
+        in_one_byte: rng.chance(1, 2),
         ..RunCfg::default()
     };
     let mut g = Gen::new(seed, cfg);
@@ -208,7 +224,10 @@ pub fn generate_mode(seed: u64, index: u64, exhaustive: bool, inf: InfMode) -> F
         vec![],
     );
     for (name, e, _) in pool.iter() {
-        if g.push("declare-pool", declare(name, e.clone()), vec![]).is_err() {
+        // lazy values whose callbacks print are kept out of the model: observing them would run
+        // the callbacks
+        let effectful = crate::ir::render(e).contains("lazy_map (\\y -> (print");
+        if effectful || g.push("declare-pool", declare(name, e.clone()), vec![]).is_err() {
             // the model cannot represent this pool value: declare it implementation-only
             g.push_outcome_only("declare-pool-unmodelled", declare(name, e.clone()), vec![], false);
         }
